@@ -140,3 +140,36 @@ theorem nodup_insert {l : List (α × β)} (h : NoDupKeys l) (k : α) (v : β) :
   exact (keys_erase_sub l b a ha).2
 
 end Rocfl.AL
+
+namespace Rocfl.AL
+variable {α β : Type} [DecidableEq α]
+
+theorem mem_of_get {l : List (α × β)} {k : α} {v : β} (h : get l k = some v) : (k, v) ∈ l := by
+  induction l with
+  | nil => simp at h
+  | cons e t ih =>
+    obtain ⟨a, b⟩ := e
+    rw [get_cons] at h
+    by_cases h1 : a = k
+    · simp [h1] at h; subst h; subst h1; exact List.mem_cons_self ..
+    · simp [h1] at h; exact List.mem_cons_of_mem _ (ih h)
+
+theorem get_of_mem {l : List (α × β)} (hn : NoDupKeys l) {k : α} {v : β} (h : (k, v) ∈ l) : get l k = some v := by
+  induction l with
+  | nil => simp at h
+  | cons e t ih =>
+    obtain ⟨a, b⟩ := e
+    have hn' : a ∉ keys t ∧ NoDupKeys t := by simpa [NoDupKeys, keys] using hn
+    rw [get_cons]
+    rcases List.mem_cons.mp h with heq | hm
+    · cases heq; simp
+    · have hk : k ∈ keys t := by simp only [keys, List.mem_map]; exact ⟨(k, v), hm, rfl⟩
+      have : a ≠ k := fun e => hn'.1 (e ▸ hk)
+      simp [this, ih hn'.2 hm]
+
+theorem mem_iff_get {l : List (α × β)} (hn : NoDupKeys l) (k : α) (v : β) : (k, v) ∈ l ↔ get l k = some v :=
+  ⟨get_of_mem hn, mem_of_get⟩
+
+theorem nodup_nil : NoDupKeys ([] : List (α × β)) := by simp [NoDupKeys, keys]
+
+end Rocfl.AL
